@@ -47,7 +47,7 @@ def _lambda_for_query(
     queries built from the same `ast.Lambda` object share nothing - so we work on a copy.
     """
     a = parse_as_ast(f, caller_name)
-    if len(known_types) == 0:
+    if isinstance(f, ast.AST) and len(known_types) == 0:
         a = copy.deepcopy(a)
     return _local_simplification(a)
 
